@@ -138,15 +138,15 @@ package cluster
 // the broadcast type of this package must therefore have neither method (type-level obligation, decided by go/types)
 // and never invalidate (contract below); its message is exactly the bytes it was made from.
 //@ structural broadcasts-are-never-replaced
-//@   props C19 C09 C10
+//@   props C19 C09 C10 C04
 //@   in github.com/prometheus/alertmanager/cluster
 //@   types simpleBroadcast
 //@   nomethods Name UniqueBroadcast
 //@ func (simpleBroadcast).Invalidates
-//@   props C19 C09 C10
+//@   props C19 C09 C10 C04
 //@   ensures [never-invalidates] !result
 //@ func (simpleBroadcast).Message
-//@   props C19 C09 C10
+//@   props C19 C09 C10 C04
 //@   ensures [the-bytes-it-was-made-from] len(result) == len(b) && (forall i int :: 0 <= i && i < len(b) ==> result[i] == b[i])
 
 // ---- C19: the receive side of the TLS transport's framing (length prefix, then the message). Whatever length the
